@@ -6,6 +6,12 @@
 // sync: import "sync" -> "verif/shim/vsync" (same local name)
 // go:   `go f(x)`     -> vsched.Go(func(){ f(x) })
 // time: time.AfterFunc/Now/Since/Sleep/Until and *time.Timer -> verif/shim/vtime
+// os:   import "os"   -> "verif/shim/vfs" (same local name): in-memory file system
+//       that logs every operation and supports crash-at-operation-k and torn
+//       writes; paths outside a mounted prefix go to the real os package
+// xchg: radius.Exchange(...) of layeh.com/radius -> verif/shim/vradius.Exchange
+//       (scripted in-memory RADIUS server; falls back to the real exchange when
+//       no script is installed)
 //
 // Nothing else is changed. A requested rewrite that matches nothing is an error
 // (exit 2): an instrumentation failure must never look like a verdict.
@@ -79,6 +85,7 @@ func rewriteFile(src, dst string, want map[string]bool, hits map[string]int) (bo
 	}
 	changed := false
 	syncName, timeName := "", ""
+	lradName := ""
 	for _, im := range f.Imports {
 		p, _ := strconv.Unquote(im.Path.Value)
 		switch p {
@@ -94,10 +101,26 @@ func rewriteFile(src, dst string, want map[string]bool, hits map[string]int) (bo
 				hits["sync"]++
 				changed = true
 			}
+		case "os":
+			if want["os"] {
+				name := "os"
+				if im.Name != nil {
+					name = im.Name.Name
+				}
+				im.Name = ast.NewIdent(name)
+				im.Path.Value = strconv.Quote("verif/shim/vfs")
+				hits["os"]++
+				changed = true
+			}
 		case "time":
 			timeName = "time"
 			if im.Name != nil {
 				timeName = im.Name.Name
+			}
+		case "layeh.com/radius":
+			lradName = "radius"
+			if im.Name != nil {
+				lradName = im.Name.Name
 			}
 		}
 	}
@@ -143,8 +166,30 @@ func rewriteFile(src, dst string, want map[string]bool, hits map[string]int) (bo
 			changed = true
 		}
 	}
+	needVradius := false
+	if want["xchg"] && lradName != "" {
+		ast.Inspect(f, func(n ast.Node) bool {
+			se, ok := n.(*ast.SelectorExpr)
+			if !ok {
+				return true
+			}
+			id, ok := se.X.(*ast.Ident)
+			if ok && id.Name == lradName && id.Obj == nil && se.Sel.Name == "Exchange" {
+				id.Name = "vradius"
+				needVradius = true
+			}
+			return true
+		})
+		if needVradius {
+			hits["xchg"]++
+			changed = true
+		}
+	}
 	if !changed {
 		return false, nil
+	}
+	if needVradius {
+		addImport(f, "vradius", "verif/shim/vradius")
 	}
 	if needVsched {
 		addImport(f, "vsched", "verif/shim/vsched")
